@@ -62,6 +62,26 @@ def mk_cond(c, a, b):
     return ("cond", c, a, b)
 
 
+def _int_valued(t) -> bool:
+    return (is_const(t) and isinstance(t[1], int) and not isinstance(t[1], bool)) or (isinstance(t, tuple) and t and t[0] == "call" and t[1] == "len")
+
+
+def mk_cmp(op: str, a, b):
+    """Canonical order comparison: everything is expressed with 'Lt' (and 'not'); against an integer constant the constant
+    stands on the right (``k < n`` is ``not n < k+1`` for integers), so ``len(x) > 10`` and ``len(x) >= 11`` are one term."""
+    if op == "Gt":
+        return mk_cmp("Lt", b, a)
+    if op == "LtE":
+        return mk_not(mk_cmp("Lt", b, a))
+    if op == "GtE":
+        return mk_not(mk_cmp("Lt", a, b))
+    if op == "Lt":
+        if is_const(a) and isinstance(a[1], int) and not isinstance(a[1], bool) and _int_valued(b) and not is_const(b):
+            return mk_not(("cmp", "Lt", b, const(a[1] + 1)))
+        return ("cmp", "Lt", a, b)
+    return ("cmp", op, a, b)
+
+
 INFEASIBLE = ("infeasible",)
 
 
@@ -248,6 +268,7 @@ class Interp:
         self.builtin_hooks = {}
         self.closures = {}
         self.yield_hooks = {}
+        self.opaque_attrs = {}        # class qualname -> predicate(attribute name): reads that stay symbolic
         self.fusions = []
         self.no_fuse = set()
 
@@ -381,6 +402,10 @@ class Interp:
                 return ("bound", base[3], m.qualname)
             return ("attr", base, name)
         cls = self.type_of(base)
+        if cls is not None and any(pred(name) for q_, pred in self.opaque_attrs.items() if any(c.qualname == q_ for c in cls.mro())):
+            m0 = cls.find_method(name)
+            if m0 is None or m0.is_property:
+                return ("attr", base, name)     # a data attribute / property kept symbolic on request (the rules are stated in terms of it)
         if cls is not None:
             m = cls.find_method(name)
             if m is not None:
@@ -571,6 +596,12 @@ class Interp:
                 raise ValueError
             if isinstance(n, ast.Lambda):
                 return self._lambda_closure(n, mod, {})
+            if isinstance(n, ast.Call) and isinstance(n.func, (ast.Name, ast.Attribute)) and len(n.args) == 1 and not n.keywords \
+                    and isinstance(n.args[0], ast.Constant):
+                fn = n.func.id if isinstance(n.func, ast.Name) else n.func.attr
+                if fn in ("attrgetter", "itemgetter"):
+                    return (fn, n.args[0].value)
+                raise ValueError
             if isinstance(n, ast.Tuple):
                 return ("tuple", tuple(ev(e) for e in n.elts))
             if isinstance(n, ast.List):
@@ -732,14 +763,27 @@ class Interp:
                 if isinstance(o, HDict) and o.origin[2] == 0 and o.entries and all(e[0] != "**" and is_const(e[0]) for e in o.entries):
                     r = ("bool", "or", tuple(("cmp", "Eq", p[2], e[0]) for e in o.entries)) if len(o.entries) > 1 else ("cmp", "Eq", p[2], o.entries[0][0])
                     return r if p[1] == "In" else mk_not(r)
-            if p[1] == "IsNot":
-                return mk_not(("cmp", "Is", p[2], p[3]))
-            if p[1] == "NotIn":
-                return mk_not(("cmp", "In", p[2], p[3]))
-            if p[1] == "NotEq":
-                return mk_not(("cmp", "Eq", p[2], p[3]))
-            return p
-        return ("bool", "and", tuple(parts))
+            return self._canon_cmp(p)
+        return self._demorgan("and", tuple(self._canon_cmp(p) for p in parts))
+
+    @staticmethod
+    def _canon_cmp(p):
+        if p[1] == "IsNot":
+            return mk_not(("cmp", "Is", p[2], p[3]))
+        if p[1] == "NotIn":
+            return mk_not(("cmp", "In", p[2], p[3]))
+        if p[1] == "NotEq":
+            return mk_not(("cmp", "Eq", p[2], p[3]))
+        if p[1] in ("Lt", "Gt", "LtE", "GtE"):
+            return mk_cmp(p[1], p[2], p[3])
+        return p
+
+    @staticmethod
+    def _demorgan(op, vals):
+        """and(not a, not b) == not or(a, b); or(not a, not b) == not and(a, b)."""
+        if len(vals) >= 2 and all(isinstance(v, tuple) and v and v[0] == "not" for v in vals):
+            return mk_not(("bool", "or" if op == "and" else "and", tuple(v[1] for v in vals)))
+        return ("bool", op, tuple(vals))
 
     def _branch(self, st: State, cond, fn):
         """Evaluate fn(state, subtree) in a fork guarded by cond; returns (value, subtree, forked state)."""
@@ -779,7 +823,7 @@ class Interp:
             return const(False if is_or else True)
         if len(keep) == 1:
             return keep[0]
-        return ("bool", "or" if is_or else "and", tuple(keep))
+        return self._demorgan("or" if is_or else "and", tuple(keep))
 
     def ev_IfExp(self, st, n, tree):
         c = self.ev(st, n.test, tree)
@@ -1004,6 +1048,10 @@ class Interp:
         if k == "lambda" and len(f) > 3:
             fi, cenv = self.closures[f[3]]
             return self.call_function(st, fi, args, kwargs, n, tree, closure_env=cenv)
+        if k == "attrgetter" and len(args) == 1 and isinstance(f[1], str):
+            return self.get_attr(st, args[0], f[1], n, tree)
+        if k == "itemgetter" and len(args) == 1:
+            return self.get_item(st, args[0], const(f[1]))
         if k == "propobj":
             return ("opaque", "property object called")
         if k == "builtin":
@@ -1014,6 +1062,8 @@ class Interp:
             if nm in ("typing.cast", "typing_extensions.cast") and len(args) == 2:
                 self._note_cast(n, args[1])
                 return args[1]
+            if nm in ("operator.attrgetter", "operator.itemgetter") and len(args) == 1 and is_const(args[0]) and not kwargs:
+                return (nm.rsplit(".", 1)[1], args[0][1])
             if nm in ("collections.deque",) and not args and not kwargs:
                 return self.new_list([], n, tree)
             if nm == "collections.defaultdict":
